@@ -21,9 +21,10 @@ RULE = ("exhaustive small histories (all op words over {add(d,len), next} up to 
         "stream ended, or an add was rejected (streamix); at least one read after an assignment (control). "
         "distinct = distinct JSON case")
 TRUSTED = [
-    "hand-written Lean model ALV/Model/C16.lean of lazy_stream.Streamix / ControlStream (modelled, not "
-    "verified: the generator protocol, deque, iter(); `count += 1.` is placed at the end of the step that "
-    "yielded instead of at the resumption; event data are finite lists; the to_remove pass is a filter)",
+    "hand-written Lean models of lazy_stream.Streamix / ControlStream: ALV/Model/C16Gen.lean (generator level: "
+    "iterator objects with identity, summing pass + to_remove pass with list.remove, count += 1. at the "
+    "resumption; this is what the driver runs) proved equivalent to ALV/Model/C16.lean (fused) proved equal to "
+    "the spec.  Modelled, not verified: the generator protocol itself, deque, iter(); event data are finite lists",
     "the `count` observation reads the generator frame local named `count` (skipped when absent)",
 ]
 ASSUMPTIONS = [
@@ -294,12 +295,6 @@ def _impl_streamix(c):
                 v = next(it)
                 qa = _len(smix, "_not_playing")
                 o = {"out": enc(v), "started": (qb - qa) if qb is not None and qa is not None else None}
-                fr = getattr(it, "gi_frame", None)
-                if fr is not None and "count" in fr.f_locals:
-                    try:
-                        cnt = enc(fr.f_locals["count"])
-                    except TypeError:
-                        cnt = None
             except StopIteration:
                 o = "stop"
             except Exception as e:
@@ -307,6 +302,12 @@ def _impl_streamix(c):
         else:
             smix.keep = op["v"]
             o = "ok"
+        fr = getattr(it, "gi_frame", None)       # None once the generator has finished
+        if fr is not None and "count" in fr.f_locals:
+            try:
+                cnt = enc(fr.f_locals["count"])
+            except TypeError:
+                cnt = None
         res.append([o, _len(smix, "_not_playing"), _len(smix, "_playing"), cnt])
     return {"steps": res}
 
